@@ -155,6 +155,19 @@ CHECKS['C10'] = dict(
     technique="Coq fold laws + generated reset-coverage theorem + prefix/removal differential oracle",
     design="6.C10")
 
+CHECKS['C07'] = dict(
+    text="Cnl/Fresh.v models the two fresh-name generators (ASPConverter.create_new_field_value, CNLTransformer._new_field_value) byte "
+         "for byte; theorems for every collision list and base name: a generated name is not in the list it was given, hence differs from "
+         "every author variable recorded before the call and from every earlier invention (C07_converter_fresh, C07_parser_fresh, "
+         "C07_invention_distinct_from_author, C07_successive_inventions_distinct). Tie: function-level correspondence on adversarial "
+         "collision lists. Program-level alpha-invariance is decided by the oracle: every specification is recompiled under a benign and "
+         "under adversarial injective renamings of the author's variables (to names the compiler invents for that very specification, "
+         "CNT/SM/MX/MN, suffixed variants) and compared rule by rule up to renaming. Partial: that the collision list is complete at the "
+         "moment of each call is not proved (and false for the parser: recorded finding).",
+    note="Trusted: Coq kernel; identification of author variables in the text (all-upper-case tokens outside strings; article 'A' and AM/PM excluded by position).",
+    technique="Coq freshness theorems over a byte-exact generator model + adversarial renaming oracle",
+    design="6.C07")
+
 NOT_YET = {}
 
 
